@@ -25,14 +25,21 @@ TRUSTED = ['extraction of the float instance (ExtrOcamlBasic, ExtrOCamlFloats, E
            'Rust harness harness/src/bin/c17.rs (builds the structs from their public fields)',
            'exact-rational oracle tools/props/c17.py',
            'Python float() (correctly rounded decimal->binary64) is the reference for H2']
-ASSUMPTIONS = ['H1: Rust `{}` of a finite f64 is [-]digits[.digits] (no exponent), "-" exactly for negative values and -0.0, '
-               'and the text of a negative value is "-" followed by the text of its magnitude -- CHECKED on every float '
-               'printed with `{}` in this run (shortest cases)',
-               'H2: parsing that text as a correctly rounded decimal gives back the same f64 -- CHECKED likewise',
+ASSUMPTIONS = ['H1: Rust `{}` of a finite f64 is [-]digits[.digits] (no exponent), "-" exactly for negative values and -0.0 '
+               '-- CHECKED (regex + sign bit) on every float printed with `{}` in this run (the `shortest` cases)',
+               'H2: that text, read as a correctly rounded decimal, gives back the same f64 -- CHECKED likewise, twice: '
+               "against Python's float() and exactly (the decimal lies within half a gap of the value)",
                'the model fmt_short is a table lookup of the strings Rust printed (not a re-implementation of Grisu/Ryu)',
-               'theorems are about the R instance with fmt_short / fmt_prec abstract under H1/H2 / the rounding spec; '
-               'float_fmt_prec (the executable `{:.p}`) is linked to the spec by proved lemmas and compared text-exactly',
-               'char::is_alphabetic is exact only on ASCII, Latin-1 and tab_alphabetic (variables are drawn from there)']
+               'theorems are about the R instance: fmt_short abstract under H1/H2 on a set F of representable values closed '
+               'under negation; fmt_prec abstract under its rounding contract prec_spec, which the executable '
+               'float_fmt_prec (compared text-for-text with Rust on every case) meets: c17_fmt_prec_exact / c17_fmt_prec_sign',
+               'with a precision p the property bounds the printed DECIMAL (within 1/2*10^-p of the value: the theorems, exact '
+               'arithmetic); the f64 the parser returns is that decimal rounded once more, so the oracle allows 1/2*10^-p + 1/2 ulp',
+               'R has no -0.0: a coefficient -0.0 is skipped / printed as "0" and reads back as +0.0 (value-equal); the oracle '
+               'compares values (Fractions), the correspondence check compares bit patterns',
+               'char::is_alphabetic / is_numeric are exact only on ASCII, Latin-1 and the tables of Base/Str.v (variables are drawn '
+               'from there); IntermediatePolynomial / Term variables are single ASCII letters, sorted and distinct (what the parser '
+               'can produce); other names (non-ASCII, multi-letter, unsorted) are exercised print-only']
 
 TAB_ALPHA = [170, 181, 186, 223, 233, 241, 252, 960, 964, 981, 937, 945, 1078, 1488, 20013, 12354, 8450, 8544, 12295]
 ASCII_LETTERS = [ord(c) for c in 'abcdefghijklmnopqrstuvwxyzABCDEFGHIJKLMNOPQRSTUVWXYZ']
@@ -168,7 +175,7 @@ def gen_specs(rng, tier):
         cs = [value(rng) for _ in range(n)]
         if rng.random() < 0.15:
             cs = [c if rng.random() < 0.4 else 0.0 for c in cs]
-        p = PRECS[j % 19]
+        p = None if j % 4 == 0 else PRECS[1 + j % 18]
         vk = rng.random()
         var = None if vk < 0.2 else (120 if vk < 0.4 else (rng.choice(ASCII_LETTERS) if vk < 0.75 else rng.choice(TAB_ALPHA)))
         specs.append(('s', 'simple-default' if p is None else 'simple-prec', (p, var, cs), True))
@@ -192,7 +199,7 @@ def gen_specs(rng, tier):
     for j in range(n_inter):
         nt = rng.choice([0, 1, 1, 2, 2, 3, 4, 5])
         ts = [well_formed_term() for _ in range(nt)]
-        p = PRECS[j % 19]
+        p = None if j % 4 == 0 else PRECS[1 + j % 18]
         specs.append(('i', 'inter-default' if p is None else 'inter-prec', (p, ts), True))
     for ts in fixed_inter:
         for t in ts:
